@@ -210,8 +210,10 @@ class ResolveAnchorIds(Transform):
             del refnode["refuri"]
 
             # search explicit first
-            if target in explicit:
-                ref_id, implicit_title = explicit[target]
+            # (explicit target names are registered by docutils in normalised form)
+            explicit_name = nodes.fully_normalize_name(target)
+            if explicit_name in explicit:
+                ref_id, implicit_title = explicit[explicit_name]
                 refnode["refid"] = ref_id
                 if not refnode.children and implicit_title:
                     refnode += nodes.inline(
